@@ -14,9 +14,10 @@ import SphericalVerif.Lemmas.Modes
     observable the theorems speak about (class, spin weight, keys, values, `is`-identity of the dicts and
     of the value objects, shared memory, and visibility of later mutations in both directions).
 
-    Routes (as observed on numpy 2.x): `obj.copy()`, `copy.copy(obj)`, `copy.deepcopy(obj)` and
-    `np.array(obj, copy=True, subok=True)` all allocate a new array of the same class and call
-    `__array_finalize__(new, obj)` (ndarray defines `__copy__`/`__deepcopy__`); only pickling goes through
+    Routes (as observed on numpy 2.x): `obj.copy()`, `copy.copy(obj)` and `np.array(obj, copy=True, subok=True)`
+    allocate a new array of the same class and call `__array_finalize__(new, obj)` (ndarray defines `__copy__`);
+    `copy.deepcopy(obj)` goes through `Grid.__deepcopy__`, which does the same via `ndarray.__deepcopy__` and then
+    replaces the new object's `_metadata` by `copy.deepcopy` of the original's; pickling goes through
     `__reduce__` / `_reconstruct` / `__setstate__`.
 
     Reading guide: `Live h o d c` — `o` is a live object of heap `h` whose `_metadata` is the dict with
@@ -39,12 +40,8 @@ theorem grid_copy_preserves (r : Route) (h : Heap) (o : AObj) (d : Nat) (c : Dic
       c'.extra.map (·.1) = c.extra.map (·.1) ∧
       entryVals (copyVia r h o).2 c'.extra = entryVals h c.extra ∧
       (copyVia r h o).1.buf ≠ o.buf ∧ (copyVia r h o).2.buf (copyVia r h o).1.buf = h.buf o.buf := by
-  by_cases hr : ∃ p, r = .pickle p
-  · obtain ⟨p, rfl⟩ := hr
-    obtain ⟨d', c', ic, _⟩ := pickle_route_spec p hl
-    exact ⟨d', c', ic.cls, ic.md, ic.dict_ne, ic.dict, ic.spin, ic.keys, ic.values, ic.buf_ne, ic.data⟩
-  · have ic := (finalize_route_spec r (fun p e => hr ⟨p, e⟩) hl).1
-    exact ⟨_, c, ic.cls, ic.md, ic.dict_ne, ic.dict, ic.spin, ic.keys, ic.values, ic.buf_ne, ic.data⟩
+  obtain ⟨d', c', ic, _⟩ := route_spec r hl
+  exact ⟨d', c', ic.cls, ic.md, ic.dict_ne, ic.dict, ic.spin, ic.keys, ic.values, ic.buf_ne, ic.data⟩
 
 /-- a live Grid of spin weight 2 with one extra entry `note ↦ (value object 1)` and data buffer 2 -/
 example : Live ⟨fun i => if i = 0 then some ⟨some 2, [("note", 1)]⟩ else none, fun i => if i = 1 then some "v" else none,
@@ -64,13 +61,7 @@ theorem grid_copy_independent (r : Route) (h : Heap) (o : AObj) (d : Nat) (c : D
       -- mutate the original's dict / data: the copy is unaffected
       (∀ x, ((copyVia r h o).2.setDict d x).dict d' = some c') ∧
       (∀ v, ((copyVia r h o).2.setBuf o.buf v).buf (copyVia r h o).1.buf = h.buf o.buf) := by
-  have key : ∃ d' c', IndependentCopy h o d c (copyVia r h o).1 (copyVia r h o).2 d' c' := by
-    by_cases hr : ∃ p, r = .pickle p
-    · obtain ⟨p, rfl⟩ := hr
-      obtain ⟨d', c', ic, _⟩ := pickle_route_spec p hl
-      exact ⟨d', c', ic⟩
-    · exact ⟨_, c, (finalize_route_spec r (fun p e => hr ⟨p, e⟩) hl).1⟩
-  obtain ⟨d', c', ic⟩ := key
+  obtain ⟨d', c', ic, _⟩ := route_spec r hl
   obtain ⟨m1, m2, m3, m4⟩ := ic.mutations hl.dict
   exact ⟨d', c', ic.md, ic.dict, by rw [ic.orig_dict, hl.dict], ic.orig_buf, ic.orig_vals, m1, m3, m2, m4⟩
 
@@ -91,21 +82,34 @@ theorem grid_pickle_is_deep (p : Nat) (h : Heap) (o : AObj) (d : Nat) (c : DictC
   have h2 := hl.vlt e he
   omega
 
-/-- The four non-pickle routes — including `copy.deepcopy` — go through `__array_finalize__`, whose `copy.copy` of
-    the dict is SHALLOW: the copy's dict holds the very same value objects as the original's.  (Allowed by C18,
-    which speaks about the dicts and the data; recorded because `copy.deepcopy(grid)` is not deep on metadata values.) -/
-theorem grid_finalize_routes_shallow (r : Route) (hr : ∀ p, r ≠ .pickle p) (h : Heap) (o : AObj) (d : Nat) (c : DictC)
+/-- `copy.deepcopy(grid)` is a DEEP copy of the metadata as well (`Grid.__deepcopy__` replaces the shallow dict made by
+    `__array_finalize__` with `copy.deepcopy(self._metadata, memo)`): every value object of the copy's dict is a new
+    object, so mutating a value in place cannot leak across. -/
+theorem grid_deepcopy_is_deep (h : Heap) (o : AObj) (d : Nat) (c : DictC) (hl : Live h o d c) :
+    ∃ d' c', (copyVia .copyDeepcopy h o).1.md = some d' ∧ (copyVia .copyDeepcopy h o).2.dict d' = some c' ∧
+      ∀ e' ∈ c'.extra, ∀ e ∈ c.extra, e'.2 ≠ e.2 := by
+  obtain ⟨d', c', ic, hf⟩ := deepcopy_route_spec hl
+  refine ⟨d', c', ic.md, ic.dict, fun e' he' e he => ?_⟩
+  have h1 := hf e' he'
+  have h2 := hl.vlt e he
+  omega
+
+/-- The three remaining routes — `obj.copy()`, `copy.copy`, `np.array(copy=True, subok=True)` — go through
+    `__array_finalize__` only, whose `copy.copy` of the dict is SHALLOW: the copy's dict holds the very same value
+    objects as the original's.  (Allowed by C18, which speaks about the dicts and the data.) -/
+theorem grid_finalize_routes_shallow (r : Route) (hr : r.deep = false) (h : Heap) (o : AObj) (d : Nat) (c : DictC)
     (hl : Live h o d c) :
     ∃ d', (copyVia r h o).1.md = some d' ∧ d' ≠ d ∧ (copyVia r h o).2.dict d' = some c := by
   have ic := (finalize_route_spec r hr hl).1
   exact ⟨_, ic.md, ic.dict_ne, ic.dict⟩
 
-example : ∀ p, Route.copyDeepcopy ≠ .pickle p := by intro p; exact Route.noConfusion
+example : Route.objCopy.deep = false ∧ Route.copyCopy.deep = false ∧ Route.npArraySubok.deep = false
+    ∧ Route.copyDeepcopy.deep = true ∧ ∀ p, (Route.pickle p).deep = true := ⟨rfl, rfl, rfl, rfl, fun _ => rfl⟩
 
 /-- The hook sequence of each route (checked against the real class by the `grid-copy` correspondence). -/
 theorem grid_route_hooks :
     Route.objCopy.hooks = [.finalizeFrom] ∧ Route.copyCopy.hooks = [.finalizeFrom] ∧
-    Route.copyDeepcopy.hooks = [.finalizeFrom] ∧ Route.npArraySubok.hooks = [.finalizeFrom] ∧
+    Route.copyDeepcopy.hooks = [.deepcopy, .finalizeFrom] ∧ Route.npArraySubok.hooks = [.finalizeFrom] ∧
     ∀ p, (Route.pickle p).hooks = [.reduce, .finalizeNone, .setstate] :=
   ⟨rfl, rfl, rfl, rfl, fun _ => rfl⟩
 
@@ -148,16 +152,16 @@ theorem modes_copy_preserves (r : Model.Modes.Route) (h : Model.Modes.Heap) (obj
         ∃ v', (Model.Modes.copyRoute r h obj).1.lookup (Model.Modes.copyRoute r h obj).2.dict k = some v'
           ∧ Model.Modes.sameValue h v (Model.Modes.copyRoute r h obj).1 v' := by
   obtain ⟨hb, hd, hrf⟩ := hl
-  by_cases hr : ∃ p, r = .pickle p
-  · obtain ⟨p, rfl⟩ := hr
-    obtain ⟨e, b1, _, _, _, lk, _, _⟩ := Lemmas.Modes.pickle_spec h obj ⟨hb, hd, hrf⟩
-    have e' : (Model.Modes.copyRoute (.pickle p) h obj) = Model.Modes.pickleRoundTrip h obj := rfl
-    rw [e', e]
-    refine ⟨hc, by show h.nextBuf ≠ obj.buf; omega, b1, by show h.nextDict + 1 ≠ obj.dict; omega, ?_⟩
+  cases hr : r.deep
+  case true =>
+    obtain ⟨e, b1, _, _, _, lk, _, _⟩ := Lemmas.Modes.deep_route_spec r hr h obj hc ⟨hb, hd, hrf⟩
+    rw [e]
+    refine ⟨rfl, by show h.nextBuf ≠ obj.buf; omega, b1, by show h.nextDict + 1 ≠ obj.dict; omega, ?_⟩
     intro k v hk
     obtain ⟨v', l', r'⟩ := lk k v hk
     exact ⟨v', l', r'.sameValue⟩
-  · obtain ⟨e, d1, _, hv, b1, _⟩ := Lemmas.Modes.finalize_route_spec r (fun p hp => hr ⟨p, hp⟩) h obj
+  case false =>
+    obtain ⟨e, d1, _, hv, b1, _⟩ := Lemmas.Modes.finalize_route_spec r hr h obj
     rw [e]
     refine ⟨rfl, by show h.nextBuf ≠ obj.buf; omega, b1, by show h.nextDict ≠ obj.dict; omega, ?_⟩
     intro k v hk
@@ -175,7 +179,7 @@ example : ∃ (h : Model.Modes.Heap) (obj : Model.Modes.PyObj), obj.cls = Model.
 /-- Copying does not disturb the original, and afterwards the two sides are independent: setting a key of either
     `_metadata` dict, or overwriting either data buffer, is invisible on the other side. -/
 theorem modes_copy_independent (r : Model.Modes.Route) (h : Model.Modes.Heap) (obj : Model.Modes.PyObj)
-    (hl : h.Live obj) :
+    (hc : obj.cls = Model.Modes.Cls.modes) (hl : h.Live obj) :
     -- the original after the copy was made
     (Model.Modes.copyRoute r h obj).1.dicts obj.dict = h.dicts obj.dict
     ∧ (Model.Modes.copyRoute r h obj).1.bufs obj.buf = h.bufs obj.buf
@@ -196,14 +200,14 @@ theorem modes_copy_independent (r : Model.Modes.Route) (h : Model.Modes.Heap) (o
       ∧ (Model.Modes.copyRoute r h obj).1.bufs obj.buf = h.bufs obj.buf
       ∧ (Model.Modes.copyRoute r h obj).1.bufs (Model.Modes.copyRoute r h obj).2.buf = h.bufs obj.buf
       ∧ (∀ i, i < h.nextVal → (Model.Modes.copyRoute r h obj).1.vals i = h.vals i) := by
-    by_cases hr : ∃ p, r = .pickle p
-    · obtain ⟨p, rfl⟩ := hr
-      obtain ⟨e, b1, b2, d2, _, _, _, vv⟩ := Lemmas.Modes.pickle_spec h obj ⟨hb, hd, hrf⟩
-      have e' : (Model.Modes.copyRoute (.pickle p) h obj) = Model.Modes.pickleRoundTrip h obj := rfl
-      rw [e', e]
+    cases hr : r.deep
+    case true =>
+      obtain ⟨e, b1, b2, d2, _, _, _, vv⟩ := Lemmas.Modes.deep_route_spec r hr h obj hc ⟨hb, hd, hrf⟩
+      rw [e]
       exact ⟨by show h.nextDict + 1 ≠ obj.dict; omega, by show h.nextBuf ≠ obj.buf; omega, d2 _ hd,
         b2 _ (by omega), b1, vv⟩
-    · obtain ⟨e, _, d2, hv, b1, b2⟩ := Lemmas.Modes.finalize_route_spec r (fun p hp => hr ⟨p, hp⟩) h obj
+    case false =>
+      obtain ⟨e, _, d2, hv, b1, b2⟩ := Lemmas.Modes.finalize_route_spec r hr h obj
       rw [e]
       exact ⟨by show h.nextDict ≠ obj.dict; omega, by show h.nextBuf ≠ obj.buf; omega, d2 _ (by omega),
         b2 _ (by omega), b1, fun i _ => by rw [hv]⟩
@@ -222,9 +226,9 @@ theorem modes_copy_independent (r : Model.Modes.Route) (h : Model.Modes.Heap) (o
     simp only [Model.Modes.Heap.fill, if_neg nb]
     exact cb
 
-example : ∃ (h : Model.Modes.Heap) (obj : Model.Modes.PyObj), h.Live obj :=
+example : ∃ (h : Model.Modes.Heap) (obj : Model.Modes.PyObj), obj.cls = Model.Modes.Cls.modes ∧ h.Live obj :=
   ⟨⟨fun _ => [("spin_weight", .int 1), ("ell_max", .int 2)], fun _ => [], fun _ p => p, 1, 0, 1⟩, ⟨.modes, 0, 0⟩,
-    by decide, by decide, by intro k id hm; simp at hm⟩
+    rfl, by decide, by decide, by intro k id hm; simp at hm⟩
 
 /-- Pickling is a DEEP copy of the metadata: every mutable value of the unpickled Modes' dict is a new object
     (`__setstate__` deep-copies the unpickled dict), so mutating one in place cannot change any value that
@@ -243,11 +247,28 @@ theorem modes_pickle_is_deep (p : Nat) (h : Model.Modes.Heap) (obj : Model.Modes
   simp only [Model.Modes.Heap.mutate, if_neg (show i ≠ id by omega)]
   exact vv i hi
 
-/-- The four non-pickle routes — including `copy.deepcopy` — go through `__array_finalize__`, whose `copy.copy` of the
-    dict is SHALLOW: a mutable value of the original's dict is, in the copy's dict, the very same object, so
-    mutating it in place through either side is visible on both.  (Recorded because `copy.deepcopy(modes)` is not
-    deep on metadata values; top-level keys and the data are independent by `modes_copy_independent`.) -/
-theorem modes_finalize_routes_shallow (r : Model.Modes.Route) (hr : ∀ p, r ≠ .pickle p) (h : Model.Modes.Heap)
+/-- `copy.deepcopy(modes)` is DEEP on the metadata as well (`Modes.__deepcopy__` replaces the shallow dict made by
+    `__array_finalize__` with `copy.deepcopy(self._metadata, memo)`): every mutable value of the copy's dict is a
+    new object, so mutating one in place cannot change any value that existed before. -/
+theorem modes_deepcopy_is_deep (h : Model.Modes.Heap) (obj : Model.Modes.PyObj) (hl : h.Live obj) :
+    ∀ k id, (k, Model.Modes.Val.ref id) ∈
+        (Model.Modes.copyRoute .deepCopy h obj).1.dicts (Model.Modes.copyRoute .deepCopy h obj).2.dict →
+      h.nextVal ≤ id
+      ∧ ∀ x i, i < h.nextVal → ((Model.Modes.copyRoute .deepCopy h obj).1.mutate id x).vals i = h.vals i := by
+  obtain ⟨e, _, _, _, _, _, fr, vv⟩ := Lemmas.Modes.deepcopy_spec h obj hl
+  have e' : (Model.Modes.copyRoute .deepCopy h obj) = Model.Modes.deepCopyHook h obj := rfl
+  rw [e', e]
+  intro k id hm
+  have hf := fr k id hm
+  refine ⟨hf, fun x i hi => ?_⟩
+  simp only [Model.Modes.Heap.mutate, if_neg (show i ≠ id by omega)]
+  exact vv i hi
+
+/-- The three remaining routes — `obj.copy()`, `copy.copy`, `np.array(copy=True, subok=True)` — go through
+    `__array_finalize__` only, whose `copy.copy` of the dict is SHALLOW: a mutable value of the original's dict is,
+    in the copy's dict, the very same object, so mutating it in place through either side is visible on both.
+    (Top-level keys and the data are independent by `modes_copy_independent`.) -/
+theorem modes_finalize_routes_shallow (r : Model.Modes.Route) (hr : r.deep = false) (h : Model.Modes.Heap)
     (obj : Model.Modes.PyObj) (k : String) (id : Nat) (hk : h.lookup obj.dict k = some (.ref id)) :
     (Model.Modes.copyRoute r h obj).1.lookup (Model.Modes.copyRoute r h obj).2.dict k = some (.ref id)
     ∧ ∀ x, ((Model.Modes.copyRoute r h obj).1.mutate id x).vals id = h.vals id ++ [x] := by
@@ -260,7 +281,9 @@ theorem modes_finalize_routes_shallow (r : Model.Modes.Route) (hr : ∀ p, r ≠
   · intro x
     simp [Model.Modes.Heap.mutate, hv]
 
-example : ∀ p, Model.Modes.Route.deepCopy ≠ .pickle p := by intro p; exact Model.Modes.Route.noConfusion
+example : Model.Modes.Route.copyMethod.deep = false ∧ Model.Modes.Route.copyCopy.deep = false
+    ∧ Model.Modes.Route.npArray.deep = false ∧ Model.Modes.Route.deepCopy.deep = true
+    ∧ ∀ p, (Model.Modes.Route.pickle p).deep = true := ⟨rfl, rfl, rfl, rfl, fun _ => rfl⟩
 example : ∃ (h : Model.Modes.Heap) (obj : Model.Modes.PyObj) (k : String) (id : Nat),
     h.lookup obj.dict k = some (.ref id) :=
   ⟨⟨fun _ => [("note", .ref 0)], fun _ => [], fun _ p => p, 1, 1, 1⟩, ⟨.modes, 0, 0⟩, "note", 0, rfl⟩
